@@ -312,7 +312,7 @@ print('not reproduced', r)
 '''
 
 
-@harness(['C08', 'C01', 'C02', 'C03'], 'supp.linter.lint[usage loop] + use_name', twins=('spec-unbound-alternative-is-E02',))
+@harness(['C08', 'C01', 'C02', 'C03', 'C10'], 'supp.linter.lint[usage loop] + use_name', twins=('spec-unbound-alternative-is-E02',))
 def lint_usage_loop(run, twin=None):
     """loop-body contract of the loop over the Name reads, for an arbitrary read whose table entry is of ANY class a table can hold
     (each binding class, builtin, MultiName with and without `unbound`), identifier `locals` or not: raises nothing; UNKNOWN NAME (E42)
